@@ -1,3 +1,4 @@
+import TinysetModel.Proofs.ProgramTotal
 import TinysetModel.Proofs.ProgramRefine
 import TinysetModel.Proofs.Fns
 import TinysetModel.Proofs.Plain
@@ -234,6 +235,25 @@ theorem every_program_u64 {D : Type} (g : Rng D) (fuel n : Nat) (ops : List POp)
 example : specRunP 3 (fun _ => none') [.ins 0 5, .clone 1 0, .ins 0 7, .rem 1 5, .uniRef 2 0 1] 2 7 ∧
     ¬ specRunP 3 (fun _ => none') [.ins 0 5, .clone 1 0, .ins 0 7, .rem 1 5, .uniRef 2 0 1] 1 7 := by
   simp [specRunP, pspecStep, pspecCore, POp.idx, Ideal.upd, none']
+
+/-- **SetU64: every program returns, and is right.**  Any number of new sets, any hint-free program (insert / remove /
+extend / collect / clone / with_capacity_of / drop / `&a | &b` / `&a - &b` / `a | &b` / `a - &b`) with `u64` arguments that
+feeds in fewer than 2^59 items in total, every generator outcome: every operation returns normally (no
+`unreachable!`, no "no room", no exhausted scan, recursion depth ≤ 2), every set ends well formed with exactly the
+members of the same program over ideal sets, and the allocator calls are legal and leave nothing live -/
+theorem every_program_returns_u64 {D : Type} (g : Rng D) (fuel n : Nat) (ops : List POp)
+    (hops : ∀ op ∈ ops, op.hintFree ∧ op.InRange 64) (hN : 2 * pitems ops < 2 ^ 60) (d : D) :
+    ∃ s' evs d', prun cfg64 true g (fuel + 2) (List.replicate n .empty) ops d = .ok ((s', evs), d') ∧
+      (∀ i, i < n → WF cfg64 (s'.get i) ∧ ∀ x, x ∈ elems cfg64 (s'.get i) ↔ specRunP n (fun _ => none') ops i x) ∧
+      runEv [] (evs ++ dropAll cfg64 s') = some [] :=
+  program_total_correct (histTotal_u64 g fuel) true n ops hops hN d
+/-- the hypotheses are satisfiable: a concrete program -/
+example : (∀ op ∈ [POp.ins 0 (2 ^ 63), .clone 1 0, .ext 1 [5, 6], .uniRef 2 0 1, .drop 0], op.hintFree ∧ op.InRange 64) ∧
+    2 * pitems [POp.ins 0 (2 ^ 63), .clone 1 0, .ext 1 [5, 6], .uniRef 2 0 1, .drop 0] < 2 ^ 60 := by
+  refine ⟨?_, by decide⟩
+  intro op h
+  simp only [List.mem_cons, List.not_mem_nil, or_false] at h
+  rcases h with rfl | rfl | rfl | rfl | rfl <;> simp [POp.hintFree, POp.InRange]
 
 end C01
 
